@@ -156,7 +156,7 @@ func init() {
 	add("tpl", c10P21, "", "data", c10None)
 	add("tpl", c10G33, "", "data", c10Zero)
 	add("tpl", c10J42, "", "data", c10WH)
-	add("tpl", c10P12, "", "data", c10WKeep)
+	add("tpl", c10P12, "", "details", c10WKeep) // SetImageWithDetails(data, config, alt text, title)
 	add("tpl", c10P21, "", "data", c10HKeep)
 	add("tpl", c10G33, "a.png", "file", c10None)
 	add("tpl", c10J42, "图.jpg", "file", c10None)
@@ -440,6 +440,9 @@ func (i *c10Inst) Apply(op int) (string, []rep.Violation) {
 					data.SetImage("pic", path, c10ImageConfig(o.size, false))
 					return i.render(data)
 				})
+			} else if o.via == "details" {
+				data.SetImageWithDetails("pic", "", c10Payload(op), c10ImageConfig(o.size, false), "alt text of pic", "title of pic")
+				err = i.render(data)
 			} else {
 				data.SetImageFromData("pic", c10Payload(op), c10ImageConfig(o.size, false))
 				err = i.render(data)
@@ -1027,7 +1030,7 @@ func runC10(r *rep.Run) {
 	if v, err := strconv.Atoi(os.Getenv("VERIF_C10_DEPTH")); err == nil && v > 0 {
 		depth = v // development override; the bound actually used is recorded in the evidence
 	}
-	r.Rule = "BFS over histories from a fresh document (depth d) and, with a foreign package whose pictures use sparse/unusual media names and relationship ids opened as the first step, d-1 further operations: picture-adding calls — AddImageFromData / AddImageFromFile in the body, AddTable+AddCellImage (data and file path), template placeholder {{#image}} in a paragraph or a cell rendered with SetImageFromData/SetImage — over PNG 2x1, JPEG 4x2, GIF 3x3, PNG 1x2 with a distinct payload per alphabet entry, names {a.png used for four different payloads, 图.jpg, noext, misleading x.gif}, size configurations {none, 0×0, W×H, W keep-aspect, H keep-aspect, W without keep (extent not judged), floating W×H} (each name with the default size and each size with one name, per placement), interleaved with AddHeader, AddListItem and reopen = OpenFromMemory(ToBytes()); every distinct state is saved and judged on the saved package by the independent reader: the i-th w:drawing in document order has one a:blip whose r:embed resolves through every relationship of that id in the main part's rels (type image, internal) to a part whose bytes equal the i-th picture's payload (seed pictures: the seed's bytes), no other part with a name that differs only by case holds other bytes, and wp:extent and pic:spPr/a:xfrm/a:ext equal the value of an independent integer implementation of the sizing rules; non-trivial = a step that added a picture or reopened/opened a document that has pictures"
+	r.Rule = "BFS over histories from a fresh document (depth d) and, with a foreign package whose pictures use sparse/unusual media names and relationship ids opened as the first step, d-1 further operations: picture-adding calls — AddImageFromData / AddImageFromFile in the body, AddTable+AddCellImage (data and file path), template placeholder {{#image}} in a paragraph or a cell rendered with SetImageFromData/SetImage/SetImageWithDetails(alt text, title) — over PNG 2x1, JPEG 4x2, GIF 3x3, PNG 1x2 with a distinct payload per alphabet entry, names {a.png used for four different payloads, 图.jpg, noext, misleading x.gif}, size configurations {none, 0×0, W×H, W keep-aspect, H keep-aspect, W without keep (extent not judged), floating W×H} (each name with the default size and each size with one name, per placement), interleaved with AddHeader, AddListItem and reopen = OpenFromMemory(ToBytes()); every distinct state is saved and judged on the saved package by the independent reader: the i-th w:drawing in document order has one a:blip whose r:embed resolves through every relationship of that id in the main part's rels (type image, internal) to a part whose bytes equal the i-th picture's payload (seed pictures: the seed's bytes), no other part with a name that differs only by case holds other bytes, and wp:extent and pic:spPr/a:xfrm/a:ext equal the value of an independent integer implementation of the sizing rules; non-trivial = a step that added a picture or reopened/opened a document that has pictures"
 	r.Bounds["depth"] = depth
 	r.Bounds["operations_after_a_foreign_seed"] = depth - 1
 	r.Bounds["alphabet_without_seeds"] = c10SeedBase
